@@ -99,6 +99,9 @@ func runOne(pd *Property, cfg LoadConfig, tier string) (rep *Report, prog *Progr
 			rep.note("%s", n)
 		}
 		anchorNotes = nil
+		for _, n := range canonNotes {
+			rep.note("%s", n)
+		}
 	}()
 	for _, rd := range pd.Rules {
 		func() {
